@@ -8,6 +8,7 @@ import (
 	"fmt"
 	"net"
 	"sync"
+	"sync/atomic"
 	"testing"
 
 	"pgregory.net/rapid"
@@ -98,8 +99,13 @@ var (
 	kHints  = map[string][]byte{}
 )
 
+// harnessTicks counts candidates examined by refpeer's ephemeral-key searches: a search runs inside
+// the handshake while no byte moves, so the progress watchdogs count it as progress.
+var harnessTicks atomic.Int64
+
 func kAccept(cl kClass, w int) func([]byte) bool {
 	return func(content []byte) bool {
+		harnessTicks.Add(1)
 		return cl.pred(refpeer.MpintValue(content).Bytes(), w)
 	}
 }
@@ -304,7 +310,7 @@ func c29KClasses(c *ev.Collector, t *testing.T) {
 	// mlkem768x25519 (K is a string of 32 bytes; no mpint classes) — one searched case: K starts with a zero byte
 	if ev.Mine(0) {
 		cfg := refCfg("mlkem768x25519-sha256", "ssh-ed25519", keys["ed25519"].hk)
-		cfg.Ext = &refpeer.Ext{AcceptK: func(k []byte) bool { return len(k) == 32 && k[0] == 0 }, SearchLimit: 20000}
+		cfg.Ext = &refpeer.Ext{AcceptK: func(k []byte) bool { harnessTicks.Add(1); return len(k) == 32 && k[0] == 0 }, SearchLimit: 20000}
 		var gsid, rsid []byte
 		lo := runLink(goClientEcho(goClientCfg("mlkem768x25519-sha256", "ssh-ed25519", nil), 300, &gsid), refServerEcho(&rsid, nil), cfg)
 		if lo.stalled {
